@@ -138,6 +138,20 @@ def run(ctx, R):
 
     rec(h["body"], [])
     R.ob("C10:occurs-check:traverses-term", trav and len(set_true) == 1, "the check must traverse the bound term and set the flag when it meets the variable", F.where(bw))
+    # ... for every value that can contain the variable: only an atomic constant may skip the traversal. A Var-tagged value
+    # is not dereferenced by every caller (unify_value in write mode passes the register's cell as it is), so it may stand
+    # for the structure being built.
+    skips = []
+    for n in walk(h["body"]):
+        if n["k"] == "If" and any(x["k"] in ("Call", "MethodCall") and re.search(r"(stackful_preorder_iter|eager_stackful_preorder_iter|PreOrderHeapIter)", (x.get("resolved") or x.get("callee") or "") + (x.get("inst") or "")) for x in walk(n["then"])):
+            tests = sorted({x["name"] for x in walk(n["cond"]) if x["k"] == "MethodCall"})
+            skips.append(tests)
+    if len(skips) != 1:
+        raise AnchorLost("bind_with_occurs_check: the branch that traverses the value (%d)" % len(skips))
+    R.ob("C10:occurs-check:only-constants-skip-the-traversal", skips[0] == ["is_constant"],
+         "bind_with_occurs_check decides whether to traverse the value with %s: besides atomic constants nothing may skip the check — a variable cell that was not "
+         "dereferenced by the caller can be bound to the structure under construction (p(f(X), X, g(X)) called as p(f(_), Y, W) with Y aliased to W builds a cyclic term "
+         "under occurs_check = true)" % skips[0], F.where(bw))
     R.ob("C10:occurs-check:controls-bind", guarded_binds == 1 and not unguarded,
          "the heap-variable bind must be in the branch where the occurs flag is false (guarded %d, unguarded at lines %s)" % (guarded_binds, unguarded), F.where(bw))
     ret_flag = False
